@@ -27,6 +27,11 @@ CHECKS["C09"] = dict(
     note="Bounds: code arrays <= 4 (7 thorough); corpora of total <= 6-7 characters, max_vocab_size <= 3, min_token_occurrence <= 2. uint32 wrap of the declared locals outside.",
     ref="4/C09")
 
+CHECKS["C19"] = dict(
+    text="Bounded symbolic model checking of SlidingWindowTransformer.fit/transform (sliding_windows, build_matrix_kernel, averaging/difference/weight kernels) and SequentialDifferenceTransformer: for every width 1..4, stride 1..3, pad_width 0..2 (solver case split), every documented form of window_sample and symbolic real element / pad / weight values the number of windows is ceil((L-width+1)/stride), every output cell equals the kernel applied to the sampled in-range entries, no cell of the np.empty result buffer stays uninitialised, the input is not written; SequentialDifferenceTransformer returns x[i+stride]-x[i] for every valid i and stride 1..3.",
+    note="Bounds: L <= 5 (8 thorough), 1-d and 2-column sequences; random sampling, callable kernels, position_velocity / gaussian kernels and non-increasing index lists are outside (listed as uncovered).",
+    ref="4/C19")
+
 NOT_YET = {}
 
 
